@@ -117,6 +117,8 @@ def run(ck):
     g1 = g2 = g3 = 0
     g15 = []
     seen = set()
+    ck.clause("C07.G17", "no column is read from a frame built from a possibly empty list of records without columns=")
+    ck.clause("C07.G16", "nothing is ordered without key= through objects that define no ordering (ties raise TypeError)")
     ck.clause("C07.G15", "the cross-correlation of a reference window is computed only for a non-empty window vector")
     from ..norm import is_new_helper
 
@@ -209,6 +211,41 @@ def run(ck):
                                                  found="no .empty / length guard on the path",
                                                  required="`.empty` (or len) guard dominating .tolist()",
                                                  path=pa.describe())
+                    # ---------------- G17: a column of a frame built from a possibly empty list of records
+                    if st[0] == "idx" and st[1][0] == "call" and st[1][1].endswith("DataFrame") and st[1][2] \
+                            and st[1][2][0][0] in ("comp", "list") and not any(k0 == "columns" for k0, _ in st[1][3]) \
+                            and not (st[2][0] == "c" and isinstance(st[2][1], int)):
+                        rows17 = st[1][2][0]
+                        src17 = rows17[3][0][0] if rows17[0] == "comp" and rows17[3] else rows17
+                        k17 = ("G17", fn.qualname, T.show(st[1])[:120])
+                        if k17 not in seen and _nonempty_ext(src17, ne) is not True and not (rows17[0] == "list" and rows17[1]):
+                            seen.add(k17)
+                            ck.violation("C07.G17", short(fn) + ":column-of-empty-frame", where(fn, node),
+                                         "a column is taken from a DataFrame built from a list of records without columns=: with zero "
+                                         "records the frame has no columns at all and the access raises KeyError (a zero-record output "
+                                         "file is a normal outcome: nothing placeable, nothing joinable)",
+                                         found=T.show(st)[:200], required="DataFrame(rows, columns=[...]) or no per-column access")
+                    # ---------------- G16: ordering without a key over things that define no order
+                    if st[0] == "call" and st[1] in ("sorted", "min", "max", "heapq.nlargest", "heapq.nsmallest", "nlargest", "nsmallest") \
+                            and not any(k0 == "key" for k0, _ in st[3]):
+                        its = [a for a in st[2] if a[0] == "comp"]
+                        if its:
+                            elt = its[0][2]
+                            comps16 = list(elt[1]) if elt[0] == "tuple" else [elt]
+                            for pos16, c16 in enumerate(comps16):
+                                if c16[0] == "new" and c16[1] in p.classes:
+                                    cls16 = p.classes[c16[1]]
+                                    ordered = any("__lt__" in k.methods for k in p.mro(cls16)) or any(
+                                        "order=True" in d.replace(" ", "") for k in p.mro(cls16) for d in k.decorators) or cls16.is_namedtuple
+                                    k16 = ("G16", fn.qualname, T.show(st)[:120])
+                                    if not ordered and k16 not in seen:
+                                        seen.add(k16)
+                                        ck.violation("C07.G16", short(fn) + ":" + st[1], where(fn, node),
+                                                     f"{st[1]} without key= orders {'tuples whose component #' + str(pos16) + ' is' if elt[0] == 'tuple' else ''} "
+                                                     f"a {cls16.name}, which defines no ordering: as soon as the components before it tie "
+                                                     f"(equal scores - certain when both strands correlate identically) Python compares the "
+                                                     f"{cls16.name} objects and raises TypeError, in a worker",
+                                                     found=T.show(st)[:200], required="key= (or a sort that never reaches the object)")
                     # ---------------- G15: cross-correlation of a *window* of the reference
                     if st[0] == "app" and st[1].endswith("__getCorrelation") or (st[0] == "call" and st[1].endswith("signal.correlate")):
                         args15 = [v for _, v in st[3]] if st[0] == "app" else list(st[2])
